@@ -41,7 +41,32 @@ from . import core
 
 X_FIELDS = ("_aborting", "_exception", "_iterating", "_original_iterator", "n_dispatched_tasks", "n_completed_tasks", "_jobs")
 import os as _os
-RECHECK = _os.environ.get("M1L_RECHECK", "0") not in ("", "0")
+_RECHECK_ENV = _os.environ.get("M1L_RECHECK", "auto")  # "0" / "1" force the model variant; default: probe the tree
+_RECHECK_CACHE = [None]
+
+
+def recheck_default():
+    """Which code variant the MODEL must follow for the tree under test (VERIF_REPO): `True` when `_wait_retrieval`
+    reads `_aborting` once more before returning False (the F49 repair), `False` for the older code.  Decided by a
+    behavioural probe, not by looking at the source: an empty call is run under the scheduler and the scheduling point
+    that follows the caller's read of `n_dispatched_tasks` is inspected (`r:_aborting` = repaired, `r:_exception` = the
+    `finally` block = not repaired).  `M1L_RECHECK=0|1` overrides."""
+    if _RECHECK_ENV in ("0", "1"):
+        return _RECHECK_ENV == "1"
+    if _RECHECK_CACHE[0] is None:
+        r = run_scenario(LScenario(nj=2, bs=(1,), pd=2, recheck=False, calls=((0, (), -1),), sched=()))
+        nxt = None
+        for a, b in zip(r.log, r.log[1:]):
+            if a == "0:>r:n_dispatched_tasks":
+                nxt = b
+                break
+        if nxt == "0:>r:_aborting":
+            _RECHECK_CACHE[0] = True
+        elif nxt == "0:>r:_exception":
+            _RECHECK_CACHE[0] = False
+        else:
+            raise core.InfraError(f"m1_lock: cannot tell the _wait_retrieval variant of the tree under test (probe saw {nxt!r})")
+    return _RECHECK_CACHE[0]
 STEP_WAIT = 20.0  # seconds a single step may take before the run is declared stuck (real blocking = harness/impl bug)
 
 
@@ -71,9 +96,12 @@ class LScenario:
     ra: int = 0           # 0 list, 1 generator (ordered), 2 generator_unordered
     abort_drops: bool = True
     recheck: bool = False  # which code variant the MODEL follows: `_wait_retrieval` re-reads `_aborting` before returning
-    #                        False (candidate repair of the swallowed-iterator-error race). Default from M1L_RECHECK.
-    calls: tuple = ()     # tuple of (n, fail_positions, iterfail)
+    #                        False (the F49 repair). Generated scenarios take `recheck_default()` (a probe of the tree).
+    calls: tuple = ()     # tuple of (n, fail_positions, iterfail); more than one call = oracle-only (not in the model)
     sched: tuple = ()
+    seq_callbacks: bool = False  # oracle-only backend-contract variant: callbacks run one at a time (a single callback
+    #                              thread, as in the dask backend's event loop): a batch completes only when no callback
+    #                              thread is active
 
     def tokens(self):
         t = [self.nj, int(self.bs_auto), len(self.bs), *self.bs, self.pd_mode, self.pd, self.ra, int(self.abort_drops),
@@ -89,13 +117,18 @@ class LScenario:
     def to_json(self):
         return dict(nj=self.nj, bs_auto=self.bs_auto, bs=list(self.bs), pd_mode=self.pd_mode, pd=self.pd,
                     pd_expr=self.pd_expr, ra=self.ra, abort_drops=self.abort_drops, recheck=self.recheck,
-                    calls=[[n, list(f), i] for (n, f, i) in self.calls], sched=list(self.sched))
+                    calls=[[n, list(f), i] for (n, f, i) in self.calls], sched=list(self.sched),
+                    seq_callbacks=self.seq_callbacks)
+
+    def oracle_only(self):
+        return len(self.calls) != 1 or self.seq_callbacks or self.ra == 2
 
     @staticmethod
     def from_json(d):
         return LScenario(nj=d["nj"], bs_auto=d["bs_auto"], bs=tuple(d["bs"]), pd_mode=d["pd_mode"], pd=d["pd"],
-                         pd_expr=d.get("pd_expr", ""), ra=d["ra"], abort_drops=d["abort_drops"], recheck=bool(d.get("recheck", RECHECK)),
-                         calls=tuple((c[0], tuple(c[1]), c[2]) for c in d["calls"]), sched=tuple(d["sched"]))
+                         pd_expr=d.get("pd_expr", ""), ra=d["ra"], abort_drops=d["abort_drops"], recheck=bool(d["recheck"]) if "recheck" in d else recheck_default(),
+                         calls=tuple((c[0], tuple(c[1]), c[2]) for c in d["calls"]), sched=tuple(d["sched"]),
+                         seq_callbacks=bool(d.get("seq_callbacks", False)))
 
 
 # ---------------------------------------------------------------- the scheduler
@@ -496,6 +529,8 @@ class LRun:
             t = s.threads[tid]
             if s.runnable(t):
                 acts.append(("t", tid))
+        if self.sc.seq_callbacks and any(tid != 0 and t.point != "done" for tid, t in s.threads.items()):
+            return acts
         for k in range(len(self.parked)):
             acts.append(("c", k))
         return acts
@@ -616,7 +651,7 @@ def gen_scenario(rng, big=False) -> LScenario:
             out += [rng.randrange(6)] * rng.randint(1, 6)
         sched = tuple(out[:ns])
     return LScenario(nj=nj, bs_auto=bs_auto, bs=bs, pd_mode=pd_mode, pd=pd, pd_expr=pd_expr, ra=rng.choice([0, 0, 1]),
-                     abort_drops=rng.random() < 0.6, recheck=RECHECK, calls=((n, fail, iterfail),), sched=sched)
+                     abort_drops=rng.random() < 0.6, recheck=recheck_default(), calls=((n, fail, iterfail),), sched=sched)
 
 
 def preemptions(log):
@@ -634,47 +669,127 @@ def preemptions(log):
 
 
 def oracle(run):
-    """Model-independent judgement of the implementation. -> list of (signature, detail)."""
+    """Model-independent judgement of the implementation. -> list of (signature, detail). Signatures are stable
+    strings (no ids / addresses). Handles several calls on one object (task ids of call k start at the sum of the
+    earlier calls' sizes)."""
     sc = run.sc
     out = []
     if run.status != "ok":
         out.append((f"{run.status}", f"run ended with status {run.status} after {run.steps} steps"))
         return out
-    (n, fail, iterfail) = sc.calls[0]
-    o = run.outcomes[0] if run.outcomes else None
-    if o is None:
-        out.append(("no-outcome", "the caller thread ended without an outcome"))
+    if len(run.outcomes) != len(sc.calls):
+        out.append(("no-outcome", f"{len(run.outcomes)} outcomes for {len(sc.calls)} calls"))
         return out
     if run.reentered:
         out.append(("iterator-reentered", "a second thread entered the input iterator while another was inside"))
     if run.pull_not_owner:
         out.append(("pull-without-lock", f"items pulled by a thread that did not own the lock: {run.pull_not_owner[:4]}"))
-    if run.pull_after_abort:
+    if run.pull_after_abort and len(sc.calls) == 1:
         out.append(("pull-after-abort", f"items pulled after _aborting was set: {run.pull_after_abort[:4]}"))
     if run.cb_errors:
         out.append(("callback-exception", f"exceptions escaped completion callbacks: {run.cb_errors[:4]}"))
     twice = sorted(t for t, k in run.exec_count.items() if k > 1)
     if twice:
         out.append(("executed-twice", f"tasks executed more than once: {twice[:6]}"))
-    must_fail = bool(fail) or iterfail >= 0
-    if must_fail:
-        if o[0] != "raise":
-            what = "task" if any(run.exec_count.get(f, 0) for f in fail) else "iterator"
-            out.append((f"error-swallowed:{what}", f"a failing {what} step, but the call ended with {o!r}"))
+    base = 0
+    earlier_raised = False
+    for cno, ((n, fail, iterfail), o) in enumerate(zip(sc.calls, run.outcomes)):
+        must_fail = bool(fail) or iterfail >= 0
+        where = f"call {cno}: " if len(sc.calls) > 1 else ""
+        if must_fail:
+            if o[0] != "raise":
+                what = "task" if any(run.exec_count.get(base + f, 0) for f in fail) else "iterator"
+                out.append((f"error-swallowed:{what}", f"{where}a failing {what} step, but the call ended with {o!r}"))
+            else:
+                name = o[1]
+                ok = any(name == f"TaskBoom({base + f})" for f in fail) or (iterfail >= 0 and name == f"IterBoom({base + iterfail})")
+                if not ok:
+                    out.append(("wrong-exception", f"{where}raised {name}, not an exception of a failing task / the iterator"))
         else:
-            name = o[1]
-            ok = any(name == f"TaskBoom({f})" for f in fail) or (iterfail >= 0 and name == f"IterBoom({iterfail})")
-            if not ok:
-                out.append(("wrong-exception", f"raised {name}, not an exception of a failing task / the iterator"))
-    else:
-        if o[0] == "raise":
-            out.append(("spurious-raise", f"nothing fails, but the call raised {o[1]}"))
-        elif list(o[1]) != list(range(n)):
-            out.append(("wrong-result", f"returned {o[1]!r}, expected range({n})"))
-        missing = [t for t in range(n) if run.exec_count.get(t, 0) != 1]
-        if missing and o[0] != "raise":
-            out.append(("not-executed-once", f"tasks not executed exactly once: {missing[:6]}"))
+            bad = None
+            if o[0] == "raise":
+                bad = f"nothing fails, but the call raised {o[1]}"
+            elif list(o[1]) != list(range(base, base + n)):
+                bad = f"returned {o[1]!r}, expected range({base}, {base + n})"
+            if bad:
+                if earlier_raised:
+                    # a clean call after an aborted one on the same object: leftovers of the aborted call interfere
+                    out.append(("stale-dispatch-new", f"{where}{bad} (an earlier call on this object was aborted)"))
+                else:
+                    out.append(("spurious-raise" if o[0] == "raise" else "wrong-result", where + bad))
+            else:
+                missing = [t for t in range(base, base + n) if run.exec_count.get(t, 0) != 1]
+                if missing:
+                    out.append(("not-executed-once", f"{where}tasks not executed exactly once: {missing[:6]}"))
+        earlier_raised = earlier_raised or o[0] == "raise"
+        base += n
     return out
+
+
+# which property an oracle signature belongs to (run_lock_scenarios reports a failure to `prop` only if listed)
+SIG_PROPS = {
+    "hang": ("C01", "C04"), "deadlock": ("C01", "C04"), "stuck": ("C01", "C04"), "no-outcome": ("C01", "C04"),
+    "wrong-result": ("C01",), "executed-twice": ("C01",), "not-executed-once": ("C01",), "spurious-raise": ("C01", "C04"),
+    "error-swallowed:iterator": ("C04",), "error-swallowed:task": ("C04",), "wrong-exception": ("C04",),
+    "callback-exception": ("C04",), "stale-dispatch-new": ("C04",),
+    "iterator-reentered": ("C09",), "pull-without-lock": ("C09",), "pull-after-abort": ("C09",),
+}
+
+
+def _sig_for(prop, sig):
+    props = SIG_PROPS.get(sig)
+    return props is None or prop not in ("C01", "C04", "C09") or prop in props
+
+
+# ---------------------------------------------------------------- corpus (always run first)
+
+def corpus():
+    """(name, scenario) — minimised past failures. `recheck` is left to the probe of the tree under test.
+    F49: the input iterable raises inside a callback after the caller read `_aborting == False`; must raise IterBoom.
+    F50a/F50b: a clean second call after an aborted first one while a callback of the first call is still between its
+    two critical sections (F50b: under the dask-like contract, one callback at a time, `abort_everything` joins nothing)."""
+    rc = recheck_default()
+    f49 = LScenario(nj=2, bs=(1,), pd=2, ra=0, abort_drops=True, recheck=rc, calls=((7, (), 2),),
+                    sched=(3, 3, 3, 5, 3, 1, 0, 3, 0, 3, 3, 4, 0, 5, 3, 2, 5, 1, 4, 0, 2, 0, 0, 0, 5, 4, 0, 3, 5, 1, 3, 5, 0,
+                           4, 1, 3, 3, 4, 1, 2))
+    f50a = LScenario(nj=2, bs=(1,), pd=2, ra=0, abort_drops=False, recheck=rc, calls=((6, (4,), -1), (2, (), -1)),
+                     sched=tuple([4, 5, 2, 1, 4, 0, 3, 4, 2, 3, 3, 1, 4, 4, 1, 4, 0, 2, 3, 0, 0, 3, 4, 5, 0, 1, 1, 3, 4, 5, 0,
+                                  0, 5, 4, 3, 3, 4, 3, 3, 2, 1, 5, 4, 4, 1, 4, 2, 2, 0, 4, 4, 1, 0, 1, 3, 1] + [0] * 142 +
+                                 [1, 0, 0, 4, 3, 1, 5, 5, 3, 3, 1, 1, 0, 5, 0, 2, 1, 0, 5, 4, 2, 4, 0, 2, 2, 3, 1, 5, 4, 1, 0,
+                                  2, 5, 1, 5, 5, 5, 4, 3, 4, 0, 4, 0, 1, 5, 4, 0, 1, 5, 0, 5, 1, 4, 4, 5, 0, 2, 1, 5, 0, 2, 2,
+                                  1, 0, 4, 3, 5]))
+    f50b = LScenario(nj=2, bs=(1,), pd=3, ra=0, abort_drops=True, recheck=rc, seq_callbacks=True,
+                     calls=((2, (), 2), (3, (), -1)),
+                     sched=tuple([4, 2, 2, 1, 4, 4, 0, 2, 1, 3, 0, 4, 2, 0, 0, 1, 2, 4, 2, 3, 2, 3, 0, 2, 4, 0, 0, 3, 1, 2, 2,
+                                  0, 2] + [0] * 59 +
+                                 [1, 2, 2, 0, 3, 0, 3, 4, 0, 4, 1, 2, 0, 4, 1, 4, 4, 0, 3, 3, 2, 0, 1, 0, 3, 1, 3, 3, 3, 0, 3,
+                                  2, 0, 0, 2, 4, 0, 0, 3, 2, 4, 0, 1, 0, 3, 2, 4, 1, 0, 1, 2, 3]))
+    return [("F49-iterator-error-after-aborting-read", f49), ("F50a-stale-dispatch-new", f50a),
+            ("F50b-stale-dispatch-new-single-callback-thread", f50b)]
+
+
+def gen_multicall(rng):
+    """Two or three calls on one object, the earlier ones aborted (task or iterator failure), with a long caller-only
+    stretch so that callbacks of the aborted call are still alive when the next call starts. Oracle-only."""
+    nj = rng.choice([2, 2, 3])
+    ncalls = rng.choice([2, 2, 3])
+    calls = []
+    for k in range(ncalls):
+        n = rng.randint(1, 6)
+        last = k == ncalls - 1
+        fail, iterfail = (), -1
+        if not last or rng.random() < 0.2:
+            if rng.random() < 0.5:
+                fail = (rng.randrange(n),)
+            else:
+                iterfail = rng.randint(1, n)
+        calls.append((n, fail, iterfail))
+    pre = [rng.randrange(6) for _ in range(rng.randint(10, 70))]
+    mid = [0] * rng.randint(40, 200)
+    post = [rng.randrange(6) for _ in range(rng.randint(0, 100))]
+    return LScenario(nj=nj, bs=(rng.choice([1, 1, 2]),), pd=rng.choice([1, 2, 2, 3, 4, 6]), ra=0,
+                     abort_drops=rng.random() < 0.5, recheck=recheck_default(), calls=tuple(calls),
+                     sched=tuple(pre + mid + post), seq_callbacks=rng.random() < 0.5)
 
 
 class _Slim:
@@ -693,77 +808,151 @@ class _Slim:
         self.cb_errors = r.cb_errors
 
 
-def _worker(dicts):
-    return [_Slim(run_scenario(LScenario.from_json(d))) for d in dicts]
+def _slim_to_json(r):
+    return dict(log=r.log, status=r.status, outcomes=[list(o) for o in r.outcomes], steps=r.steps,
+                exec_count=[[k, v] for k, v in r.exec_count.items()], reentered=r.reentered,
+                pull_not_owner=[list(x) for x in r.pull_not_owner], pull_after_abort=list(r.pull_after_abort),
+                cb_errors=[list(x) for x in r.cb_errors])
 
 
-_POOL = [None]
+class _FromJson:
+    def __init__(self, sc, d):
+        self.sc = sc
+        self.log = d["log"]
+        self.status = d["status"]
+        self.outcomes = [tuple(o) for o in d["outcomes"]]
+        self.steps = d["steps"]
+        self.exec_count = {k: v for k, v in d["exec_count"]}
+        self.reentered = d["reentered"]
+        self.pull_not_owner = [tuple(x) for x in d["pull_not_owner"]]
+        self.pull_after_abort = d["pull_after_abort"]
+        self.cb_errors = [tuple(x) for x in d["cb_errors"]]
 
 
-def _pool():
-    if _POOL[0] is None:
-        import concurrent.futures as cf
-        import multiprocessing as mp
-        import os
-        _POOL[0] = cf.ProcessPoolExecutor(max_workers=min(8, os.cpu_count() or 2), mp_context=mp.get_context("spawn"))
-    return _POOL[0]
+def _worker_main():
+    """`python -m harness.m1_lock --worker`: scenarios (JSON list) on stdin -> results (JSON list) on stdout."""
+    dicts = json.loads(sys.stdin.read())
+    out = [_slim_to_json(_Slim(run_scenario(LScenario.from_json(d)))) for d in dicts]
+    sys.stdout.write(json.dumps(out))
+    sys.stdout.flush()
 
 
-def run_batch(scs, driver, parallel=True):
-    """Run scenarios on the implementation (sharded over processes: a step costs two OS thread hand-offs, mostly
-    latency) and on the model. -> list of (sc, run, model_log)."""
+def run_batch(scs, driver, parallel=True, workers=8):
+    """Run scenarios on the implementation (sharded over worker SUBPROCESSES: a step costs two OS thread hand-offs,
+    mostly latency; subprocesses rather than multiprocessing so that it works from any caller) and on the model.
+    -> list of (sc, run, model_log)."""
+    import subprocess
     if parallel and len(scs) >= 16:
-        k = 8
+        k = min(workers, _os.cpu_count() or 2)
         parts = [scs[i::k] for i in range(k)]
-        futs = [_pool().submit(_worker, [sc.to_json() for sc in part]) for part in parts]
-        got = [f.result(timeout=900) for f in futs]
+        env = dict(_os.environ)
+        env["PYTHONPATH"] = str(core.VERIF) + _os.pathsep + env.get("PYTHONPATH", "")
+        procs = []
+        for part in parts:
+            pr = subprocess.Popen([sys.executable, "-m", "harness.m1_lock", "--worker"], stdin=subprocess.PIPE,
+                                  stdout=subprocess.PIPE, stderr=subprocess.PIPE, cwd=str(core.VERIF), env=env, text=True)
+            procs.append(pr)
+        import threading as _th
+        outs = [None] * k
+
+        def feed(i, pr, part):
+            try:
+                o, e = pr.communicate(json.dumps([sc.to_json() for sc in part]), timeout=900)
+                outs[i] = (pr.returncode, o, e)
+            except subprocess.TimeoutExpired:
+                pr.kill()
+                outs[i] = (-9, "", "timeout")
+
+        ths = [_th.Thread(target=feed, args=(i, pr, part)) for i, (pr, part) in enumerate(zip(procs, parts))]
+        for t in ths:
+            t.start()
+        for t in ths:
+            t.join()
         runs = [None] * len(scs)
-        for i, part in enumerate(got):
-            for j, r in enumerate(part):
-                runs[i + j * k] = r
+        for i, part in enumerate(parts):
+            rc, o, e = outs[i]
+            if rc != 0:
+                raise core.InfraError(f"m1_lock worker failed ({rc}): {e[-400:]}")
+            for j, d in enumerate(json.loads(o)):
+                runs[i + j * k] = _FromJson(part[j], d)
     else:
         runs = [_Slim(run_scenario(sc)) for sc in scs]
-    replies = driver.run([sc.line() for sc in scs]) if scs else []
+    idx = [i for i, sc in enumerate(scs) if not sc.oracle_only()]
+    got = driver.run([scs[i].line() for i in idx]) if idx else []
+    replies = [None] * len(scs)       # None = oracle-only scenario (several calls / contract variant): not in the model
+    for i, m in zip(idx, got):
+        replies[i] = m
     return [(sc, r, m) for sc, r, m in zip(scs, runs, replies)]
 
 
-def run_lock_scenarios(ctx, res, prop, n_quick=400, n_thorough=6000, budget_quick=22.0, budget_thorough=540.0):
-    """Adds M1L correspondence + oracle results to `res` (a core.Result). Scenarios come from ctx.rng('m1l/'+prop)."""
+def _account(res, prop, sc, r, mlog, seen, stream):
+    """Compare with the model (unless oracle-only), judge with the oracle, count."""
+    res.evaluations += 1
+    ilog = " | ".join(r.log)
+    case = dict(kind="m1l", **sc.to_json())
+    if mlog is not None:
+        if ilog != mlog:
+            res.diverge("m1l-steplog", case, _first_diff(ilog, mlog, "impl"), _first_diff(mlog, ilog, "model"))
+        else:
+            res.traces_validated += 1
+    for sig, detail in oracle(r):
+        if _sig_for(prop, sig):
+            res.fail("m1l:" + sig, case, detail)
+    pre = preemptions(r.log)
+    res.count(stream)
+    res.count("m1l-steps", r.steps)
+    if pre >= 3:
+        key = hash(ilog)
+        if key not in seen:
+            seen.add(key)
+            res.nontrivial.add(("m1l", key))
+    return pre
+
+
+def run_lock_scenarios(ctx, res, prop, n_quick=800, n_thorough=24000, budget_quick=22.0, budget_thorough=540.0):
+    """Adds M1L results to `res` (a core.Result): the corpus first, then random single-call scenarios compared with the
+    model step by step, then oracle-only multi-call scenarios. Scenarios come from ctx.rng('m1l/'+prop)."""
     rng = ctx.rng("m1l/" + prop)
     driver = core.Driver("M1L")
     n = n_thorough if ctx.thorough else n_quick
     budget = budget_thorough if ctx.thorough else budget_quick
     t0 = _time.time()
     seen = set()
+    for name, sc in corpus():
+        (sc, r, mlog), = run_batch([sc], driver, parallel=False)
+        _account(res, prop, sc, r, mlog, seen, "m1l-corpus")
     done = 0
-    chunk = 200
-    while done < n and _time.time() - t0 < budget:
+    chunk = 800
+    while done < n and _time.time() - t0 < budget * 0.8:
         scs = [gen_scenario(rng, big=ctx.thorough) for _ in range(min(chunk, n - done))]
         for sc, r, mlog in run_batch(scs, driver):
             done += 1
-            res.evaluations += 1
-            ilog = " | ".join(r.log)
-            case = dict(kind="m1l", **sc.to_json())
-            if ilog != mlog:
-                res.diverge("m1l-steplog", case, _first_diff(ilog, mlog, "impl"), _first_diff(mlog, ilog, "model"))
-            else:
-                res.traces_validated += 1
-            for sig, detail in oracle(r):
-                res.fail("m1l:" + sig, case, detail)
-            pre = preemptions(r.log)
-            res.count("m1l-scenarios")
-            res.count("m1l-steps", r.steps)
+            pre = _account(res, prop, sc, r, mlog, seen, "m1l-scenarios")
             res.count(f"m1l-outcome-{r.outcomes[0][0] if r.outcomes else r.status}")
-            if pre >= 3:
-                key = hash(ilog)
-                if key not in seen:
-                    seen.add(key)
-                    res.nontrivial.add(("m1l", key))
             if done <= 3:
                 res.sample(dict(m1l=sc.to_json(), steps=r.steps, preemptions=pre))
+    n_multi = max(n // 8, 64)
+    mdone = 0
+    while mdone < n_multi and _time.time() - t0 < budget:
+        scs = [gen_multicall(rng) for _ in range(min(chunk, n_multi - mdone))]
+        for sc, r, mlog in run_batch(scs, driver):
+            mdone += 1
+            _account(res, prop, sc, r, mlog, seen, "m1l-multicall-oracle-only")
     res.count("m1l-distinct-interleavings", len(seen))
-    res.notes.append(f"m1l: {done} forced-schedule runs of real threads at lock/backend-call/unlocked-access granularity, "
-                     f"{len(seen)} distinct interleavings with >= 3 pre-emptions, wall {_time.time() - t0:.1f}s")
+    res.notes.append(f"m1l: corpus {len(corpus())} + {done} forced-schedule runs of real threads at lock/backend-call/"
+                     f"unlocked-access granularity compared with the model (variant recheck={recheck_default()}) + {mdone} "
+                     f"oracle-only multi-call runs; {len(seen)} distinct interleavings with >= 3 pre-emptions; "
+                     f"wall {_time.time() - t0:.1f}s")
+    return res
+
+
+def replay_case(ctx, res, case):
+    """Re-run exactly the scenario of a failure / divergence record (`dict(kind='m1l', **sc.to_json())`)."""
+    sc = LScenario.from_json(case)
+    driver = core.Driver("M1L")
+    (sc, r, mlog), = run_batch([sc], driver, parallel=False)
+    _account(res, ctx.prop if ctx is not None else "", sc, r, mlog, set(), "m1l-replay")
+    res.notes.append("m1l replay: status %s outcomes %r" % (r.status, r.outcomes))
     return res
 
 
@@ -782,7 +971,11 @@ def main(argv=None):
     ap.add_argument("--big", action="store_true")
     ap.add_argument("--replay", help="json file with a scenario (as printed in a failure)")
     ap.add_argument("--trace", action="store_true", help="print the step log of the replayed scenario")
+    ap.add_argument("--worker", action="store_true", help=argparse.SUPPRESS)
     a = ap.parse_args(argv)
+    if a.worker:
+        _worker_main()
+        return 0
     import random
     driver = core.Driver("M1L")
     if a.replay:
